@@ -1065,6 +1065,9 @@ class TestResult(unittest.TestResult):
             self.stop()
 
     def stopTest(self, test):
+        # unittest calls this even when the test is aborted (e.g. by a
+        # KeyboardInterrupt), in which case nothing restored the streams.
+        self._restoreStdStreams()
         self.testTearDown()
         # Without clearing, cyclic garbage referenced by the test
         # would be reported in the following test.
